@@ -252,12 +252,70 @@ func (c *Ctx) RequireGuard(rule string, sc Scope, name string, preds ...func(ssa
 		}
 	}
 	if first == nil {
+		// the test may have been moved into a helper of the same package whose failure is propagated
+		dl := c.delegateSites(sc, func(g *ssa.Function) bool { return c.RequireGuard(rule, c.ScopeFunc(g), name, preds...) })
+		if len(dl) > 0 {
+			okd, d := c.decideSites(sc, dl)
+			c.Require(rule, key, okd, "delegated to %s at %s: %s", calleeKey(dl[0]), c.Pos(dl[0].Pos()), d)
+			return okd
+		}
 		c.Require(rule, key, false, "no branch in %s tests %s with a failure-only side (%s)", sc.Name, name, c.Pos(sc.F.Pos()))
 		return false
 	}
 	ok, d := ps.decide(c, sc)
 	c.Require(rule, key, ok, "%d guard branch(es), first at %s: %s", len(ps.anchors), c.Pos(first.Cond.Pos()), d)
 	return ok
+}
+
+// delegateSites: calls in the scope to helpers of the same package (error or
+// bool result) inside which the obligation `holds`, decided quietly; bounded depth.
+func (c *Ctx) delegateSites(sc Scope, holds func(g *ssa.Function) bool) []ssa.CallInstruction {
+	if c.delegDepth >= 2 {
+		return nil
+	}
+	c.delegDepth++
+	c.quiet++
+	defer func() { c.delegDepth--; c.quiet-- }()
+	in := scopeBlocks(sc)
+	var out []ssa.CallInstruction
+	for _, ci := range allCalls(sc.F, false) {
+		if !in[ci.Block()] {
+			continue
+		}
+		g := staticCallee(ci)
+		if g == nil || g == sc.F || len(g.Blocks) == 0 || g.Pkg == nil || sc.F.Pkg == nil || g.Pkg != sc.F.Pkg {
+			continue
+		}
+		if _, idx := errResult(ci); idx < 0 && len(boolResult(ci)) == 0 {
+			continue
+		}
+		if holds(g) {
+			out = append(out, ci)
+		}
+	}
+	return out
+}
+
+// decideSites: the must-pass decision with the given call sites as anchors.
+func (c *Ctx) decideSites(sc Scope, sites []ssa.CallInstruction) (bool, string) {
+	ps := newPassSet()
+	for _, s := range sites {
+		ps.anchors = append(ps.anchors, s.Block())
+		es, prop, tested := successEdges(s, true)
+		if !tested {
+			return false, "result of " + calleeKey(s) + " is not tested"
+		}
+		for _, e := range es {
+			ps.good[e] = true
+		}
+		for r := range prop {
+			ps.propRet[r] = true
+		}
+		if okp, why := errPropagated(s); !okp {
+			return false, "result of " + calleeKey(s) + " not propagated: " + why
+		}
+	}
+	return ps.decide(c, sc)
 }
 
 // RequireCall records "every success path of the scope passes through a
@@ -276,6 +334,13 @@ func (c *Ctx) RequireCall(rule string, sc Scope, requireTest bool, keys ...strin
 		}
 	}
 	if len(sites) == 0 {
+		// the call may sit in a helper of the same package that this scope calls and whose failure it propagates
+		dl := c.delegateSites(sc, func(g *ssa.Function) bool { return c.RequireCall(rule, c.ScopeFunc(g), requireTest, keys...) })
+		if len(dl) > 0 {
+			okd, d := c.decideSites(sc, dl)
+			c.Require(rule, key, okd, "delegated to %s at %s: %s", calleeKey(dl[0]), c.Pos(dl[0].Pos()), d)
+			return okd
+		}
 		c.Require(rule, key, false, "%s (%s) contains no call to %s", sc.Name, c.Pos(f.Pos()), strings.Join(keys, "|"))
 		return false
 	}
